@@ -1,6 +1,6 @@
 SPECIFICATION Spec
 CONSTANTS
-  MonthDays <- AllMD
+  MonthDays <- TMD
   RefDaysFor <- TRefsFor
   WeekRefDays <- WRefs
   RefTimes <- OTimes
